@@ -18,7 +18,7 @@ RULE = ("files written directly with mido: (R) every delta-time word up to the l
         "assignment of tracks to <=2 ordered non-empty groups or to no group x every meta-track subset x every meta "
         "target; (K) all 30 mido key names; non-trivial = resolution != 24 or >= 2 tracks")
 ASSUMPTIONS = ["mido's byte-level reading/writing is trusted", "both neighbours are accepted on exact .5 ties",
-               "drift is checked for runs of up to 200 events per track"]
+               "drift is checked for runs of up to 5000 events per track"]
 REQUIRED_FLAGS = ["tpb_not_24", "non_integer_position", "exact_tie", "note_off_as_note_on_velocity_0", "group_of_two_tracks",
                   "track_in_no_group", "meta_target_not_first", "overlap_across_tracks_fused", "long_run", "all_30_key_names",
                   "meta_subset_excludes_grouped_track", "same_file_object_converted_twice", "stray_note_event_in_grouped_track"]
@@ -36,7 +36,7 @@ def context(tier, seed):
     k = 5 if tier == "quick" else 6
     return {"tier": tier, "k": k, "p": [60, 30, 45][seed % 3], "tmpdir": tempfile.mkdtemp(prefix="scoda_c13_", dir=base),
             "bounds": {"ticks_per_beat": TPBS, "deltas": DELTAS, "max_word_length": k, "tracks": [1, 3 if tier == "quick" else 4],
-                       "long_run_events": 200, "key_names": 30}}
+                       "long_run_events": 5000, "key_names": 30}}
 
 
 def cleanup(ctx):
@@ -85,6 +85,11 @@ def gen_cases(unit, ctx):
         for d in (1, 3, 7, 10):
             for n in (50, 200):
                 yield {"kind": "R", "tpb": unit[1], "word": [d] * n}
+        # scale: thousands of events on one track, every one checked against its exact rational position
+        for d in (7, 27):
+            for n in (1100, 2300, 5000):
+                yield {"kind": "R", "tpb": unit[1], "word": [d] * n}
+        yield {"kind": "R", "tpb": unit[1], "word": [1, 27, 240, 3] * 600}
     elif kind == "G":
         _, T, shape = unit
         for gs in groupings(T):
